@@ -641,6 +641,7 @@ impl<'tcx> Cx<'tcx> {
                     match tcx.global_alloc(prov.alloc_id()) {
                         rustc_middle::mir::interpret::GlobalAlloc::Static(sdid) => {
                             o.put("static", J::s(&self.name(sdid)));
+                            o.put("static_id", J::s(&self.raw_id(sdid)));
                         }
                         rustc_middle::mir::interpret::GlobalAlloc::Function { instance } => {
                             o.put("fnptr", J::s(&self.name(instance.def_id())));
